@@ -4,6 +4,7 @@
 // env VERIF_PADSET / VERIF_NOPADSET: comma separated type codes observed (by the independent decoder) to pad / not pad.
 #include <Vector/BLF.h>
 #include <set>
+#include <thread>
 #include <typeinfo>
 #include "hcommon.h"
 #include "memfile.h"
@@ -322,7 +323,32 @@ static int run_c02(uint64_t seed, int from, int to, const char * path, int extra
     ol::spec_selfcheck();
     std::vector<Image> imgs = load_images(path);
     g_alloc_cap = 64u << 20;
+    // two decoders at once: the images of this shard are decoded and re-encoded on two threads simultaneously (one forwards, one
+    // backwards); any state shared between decoders (a static scratch buffer, say) shows as a round-trip difference or an ASan report
+    auto concurrent_stage = [&]() {
+        long conc_bad = 0; int from = 0, to = (int)imgs.size();
+        auto sweep = [&](bool fwd, std::vector<std::string> * errs) {
+            for (int k = 0; k < 40; k++) for (int c = from; c < to && c < (int)imgs.size(); c++) {
+                int ci = fwd ? c : (to - 1 - (c - from)); if (ci >= (int)imgs.size()) continue;
+                Decoded d; if (!decode_image(imgs[ci].b, imgs[ci].type, d)) continue;
+                std::string x = roundtrip_diff(d, imgs[ci].b, padset);
+                if (!x.empty()) errs->push_back(std::string(d.ci->name) + ":" + x.substr(0, x.find('@')) + " image " + std::to_string(ci) + " " + x);
+                delete d.o;
+            }
+        };
+        std::vector<std::string> e1, e2;
+        std::thread t(sweep, false, &e2); sweep(true, &e1); t.join();
+        // only differences that do NOT occur sequentially are attributed to concurrency (the sequential pass below reports the others)
+        std::set<std::string> seqbad;
+        for (int c = from; c < to && c < (int)imgs.size(); c++) { Decoded d; if (!decode_image(imgs[c].b, imgs[c].type, d)) continue; std::string x = roundtrip_diff(d, imgs[c].b, padset); if (!x.empty()) seqbad.insert(std::to_string(c)); delete d.o; }
+        for (auto * ev : {&e1, &e2}) for (auto & m : *ev) {
+            size_t p1 = m.find(" image "); std::string idx = m.substr(p1 + 7, m.find(' ', p1 + 7) - (p1 + 7));
+            if (!seqbad.count(idx)) { conc_bad++; hc::viol("concurrent-decoders:" + m.substr(0, m.find(" image ")), m); }
+        }
+        (void)conc_bad;
+    };
     static const uint8_t bvals[] = {0x00, 0x01, 0x7f, 0x80, 0xff};
+    if (to > (int)imgs.size() && from <= (int)imgs.size()) { hc::begin_case(std::to_string(imgs.size())); wd::arm(600, "c02-concurrent"); concurrent_stage(); hc::stat("{\"concurrent_decoder_rounds\":40}"); }
     for (int c = from; c < to && c < (int)imgs.size(); c++) {
         hc::begin_case(std::to_string(c));
         wd::arm(900, "c02-image");
